@@ -772,12 +772,20 @@ theorem have_cell_from_cache_breaks_liveness :
 
 /-! ## round 6: the verification switch (assume-valid) and the block cycle sum -/
 
+theorem full_ok_shape {k : Content} {m : Nat} {w : Nat} {e : Completed} (h : full k m true w = .ok e) :
+    ∃ cyc f, k.capacityOk w = true ∧ k.script w = some cyc ∧ cyc ≤ m ∧ k.fee w = some f ∧ e = ⟨cyc, f⟩ := by
+  unfold full at h
+  cases hc : k.capacityOk w <;> cases hsx : k.script w <;> cases hfx : k.fee w <;> simp_all
+  all_goals (split at h <;> simp_all)
+  all_goals omega
+
+
 theorem fullSw_false (k : Content) (m : Nat) (tr : Bool) (w : Nat) : fullSw k m false tr w = full k m tr w := by
   unfold fullSw full; simp
 
 theorem cachedSw_false (k : Content) (m : Nat) (c : VCache) (tr : Bool) (w : Nat) :
     cachedSw k m c false tr w = cached k m c tr w := by
-  unfold cachedSw cached; rw [fullSw_false]
+  unfold cachedSw cached; rw [fullSw_false]; simp
 
 theorem txResultsSw_false (k : Content) (m : Nat) (c : VCache) (txs : List (Nat × Bool)) :
     txResultsSw k m c false txs = txResults k m c txs := by
@@ -857,28 +865,44 @@ theorem skip_fill_PreF32_poisons_cache :
       ≠ nrunSCold exK 1000 (fun _ => 0) 5 [.block true [3], .block false [3], .block true [7], .block false [7]] := by
   decide
 
-/-- the answer of an assume-valid block itself: per transaction the same verdict, error class and
-**fee** as without a cache … -/
-theorem skip_cached_fee_eq_uncached {k : Content} {m : Nat} {c : VCache} (hs : Sound k m c) (tr : Bool) (w : Nat) :
-    (cachedSw k m c true tr w).map (·.fee) = (fullSw k m true tr w).map (·.fee) := by
+/-- **With scripts skipped the cached path answers exactly like the full path** (the code after
+6d79679): verdict, error class, fee and the recorded cycles (0). -/
+theorem skip_cached_eq_uncached {k : Content} {m : Nat} {c : VCache} (hs : Sound k m c) (tr : Bool) (w : Nat) :
+    cachedSw k m c true tr w = fullSw k m true tr w := by
   unfold cachedSw
   cases hp : c.peek w with
   | none => rfl
   | some e =>
-    have h := hs w e hp
-    cases tr with
-    | false => simp [fullSw, Except.map]
-    | true =>
-      cases hc : k.capacityOk w <;> cases hsx : k.script w <;> cases hfx : k.fee w <;>
-        simp_all [full, fullSw, Except.map]
-      all_goals (split at h <;> simp_all)
-      all_goals (cases h; rfl)
+    obtain ⟨cyc, f, h1, h2, h3, h4, h5⟩ := full_ok_shape (hs w e hp)
+    subst h5
+    cases tr <;> simp [fullSw, h1, h4]
 
-/-- … but the recorded **cycles** are the cached ones on a hit and 0 on a miss: with scripts
-skipped, `BlockExt.cycles` of a node depends on its verification cache (reported as a finding
-candidate; the warm node's number is the real one). -/
+/-- the answer of an assume-valid block itself: per transaction the same verdict, error class and
+**fee** as without a cache -/
+theorem skip_cached_fee_eq_uncached {k : Content} {m : Nat} {c : VCache} (hs : Sound k m c) (tr : Bool) (w : Nat) :
+    (cachedSw k m c true tr w).map (·.fee) = (fullSw k m true tr w).map (·.fee) := by
+  rw [skip_cached_eq_uncached hs]
+
+/-- the same statement for the code before 6d79679 (fees agreed, cycles did not) -/
+theorem skip_cached_fee_eq_uncached_PreF34 {k : Content} {m : Nat} {c : VCache} (hs : Sound k m c) (tr : Bool) (w : Nat) :
+    (cachedSwPreF34 k m c true tr w).map (·.fee) = (fullSw k m true tr w).map (·.fee) := by
+  unfold cachedSwPreF34
+  cases hp : c.peek w with
+  | none => rfl
+  | some e =>
+    obtain ⟨cyc, f, h1, h2, h3, h4, h5⟩ := full_ok_shape (hs w e hp)
+    subst h5
+    cases tr <;> simp [fullSw, h1, h4, Except.map]
+
+/-- F34, the code before 6d79679: the recorded **cycles** were the cached ones on a hit and 0 on a
+miss, so with scripts skipped `BlockExt.cycles` of a node depended on its verification cache. -/
 theorem skip_hit_reports_cached_cycles {k : Content} {m : Nat} {c : VCache} {w : Nat} {e : Completed}
-    (hp : c.peek w = some e) : cachedSw k m c true true w = .ok e := by
+    (hp : c.peek w = some e) : cachedSwPreF34 k m c true true w = .ok e := by
+  unfold cachedSwPreF34; simp [hp]
+
+/-- after 6d79679 a hit records zero cycles, whatever the entry says (no hypothesis on the cache) -/
+theorem skip_hit_reports_zero_cycles {k : Content} {m : Nat} {c : VCache} {w : Nat} {e : Completed}
+    (hp : c.peek w = some e) : cachedSw k m c true true w = .ok ⟨0, e.fee⟩ := by
   unfold cachedSw; simp [hp]
 
 theorem skip_miss_reports_zero_cycles {k : Content} {m : Nat} {c : VCache} {w : Nat} {r : Completed}
@@ -890,17 +914,140 @@ theorem skip_miss_reports_zero_cycles {k : Content} {m : Nat} {c : VCache} {w : 
   split at h <;> simp_all
   cases h; rfl
 
+/-- every per-transaction result of the skipped path carries zero cycles — for EVERY cache -/
+theorem skip_result_zero_cycles {k : Content} {m : Nat} {c : VCache} {tr : Bool} {w : Nat} {r : Completed}
+    (h : cachedSw k m c true tr w = .ok r) : r.cycles = 0 := by
+  cases tr with
+  | false =>
+    unfold cachedSw fullSw at h
+    cases hp : c.peek w <;> simp [hp] at h
+  | true =>
+    cases hp : c.peek w with
+    | none => exact skip_miss_reports_zero_cycles hp h
+    | some e => rw [skip_hit_reports_zero_cycles hp] at h; cases h; rfl
+
 theorem skip_block_cycles_depend_on_cache_witness :
     Sound exK 1000 [(3, ⟨300, 3⟩)] ∧
-    (blockVerifySw exK 1000 [(3, ⟨300, 3⟩)] true [(3, true)]).2 = .ok [⟨300, 3⟩] ∧
+    (blockVerifySwPreF34 exK 1000 [(3, ⟨300, 3⟩)] true [(3, true)]).2 = .ok [⟨300, 3⟩] ∧
+    (blockVerifySwPreF34 exK 1000 [] true [(3, true)]).2 = .ok [⟨0, 3⟩] ∧
+    (blockVerifySw exK 1000 [(3, ⟨300, 3⟩)] true [(3, true)]).2 = .ok [⟨0, 3⟩] ∧
     (blockVerifySw exK 1000 [] true [(3, true)]).2 = .ok [⟨0, 3⟩] := by
-  refine ⟨?_, by decide, by decide⟩
+  refine ⟨?_, by decide, by decide, by decide, by decide⟩
   intro w e h
   simp only [VCache.peek, List.find?] at h
   by_cases hw : w = 3
   · subst hw; simp at h; subst h; decide
   · have : ((3 : Nat) == w) = false := by simp; omega
     simp [this] at h
+
+theorem txResultsSw_skip_eq_cold {k : Content} {m : Nat} {c : VCache} (hs : Sound k m c) (txs : List (Nat × Bool)) :
+    txResultsSw k m c true txs = txResultsSw k m [] true txs := by
+  induction txs with
+  | nil => rfl
+  | cons t rest ih =>
+    obtain ⟨w, tr⟩ := t
+    simp only [txResultsSw]
+    rw [skip_cached_eq_uncached hs, skip_cached_eq_uncached (sound_nil k m), ih]
+
+/-- **The answer of an assume-valid block is independent of the cache** (6d79679): verdict, error
+class, fees, the recorded per-transaction cycles and the cycle-sum check are those of a node
+without a cache, for every sound cache and every block. -/
+theorem skip_block_verdict_eq_uncached {k : Content} {m : Nat} {c : VCache} (hs : Sound k m c)
+    (txs : List (Nat × Bool)) : (blockVerifySw k m c true txs).2 = (blockVerifySw k m [] true txs).2 := by
+  unfold blockVerifySw
+  rw [txResultsSw_skip_eq_cold hs]
+  cases txResultsSw k m [] true txs with
+  | error e => rfl
+  | ok rs => simp only []; split <;> rfl
+
+theorem txResultsSw_skip_zero {k : Content} {m : Nat} {c : VCache} (txs : List (Nat × Bool)) (rs : List (Nat × Completed))
+    (h : txResultsSw k m c true txs = .ok rs) : ∀ r ∈ rs, r.2.cycles = 0 := by
+  induction txs generalizing rs with
+  | nil => simp [txResultsSw] at h; subst h; simp
+  | cons t rest ih =>
+    obtain ⟨w, tr⟩ := t
+    simp only [txResultsSw] at h
+    cases hf : cachedSw k m c true tr w with
+    | error e => simp [hf] at h
+    | ok r =>
+      simp only [hf] at h
+      cases hr : txResultsSw k m c true rest with
+      | error e => simp [hr] at h
+      | ok rs' =>
+        simp only [hr] at h
+        cases h
+        intro x hx
+        simp only [List.mem_cons] at hx
+        rcases hx with hx | hx
+        · subst hx; exact skip_result_zero_cycles hf
+        · exact ih rs' hr x hx
+
+theorem sum_zero_of_all_zero (l : List Nat) (h : ∀ x ∈ l, x = 0) : l.sum = 0 := by
+  induction l with
+  | nil => rfl
+  | cons x xs ih =>
+    simp only [List.sum_cons]
+    have := h x (by simp)
+    have := ih (fun y hy => h y (by simp [hy]))
+    omega
+
+/-- … all recorded cycles are zero and the block is never refused for its cycle sum — for EVERY
+cache, sound or not, and every block -/
+theorem skip_block_cycles_all_zero (k : Content) (m : Nat) (c : VCache) (txs : List (Nat × Bool)) :
+    (blockVerifySw k m c true txs).2 ≠ .error .cycles ∧
+    ∀ cs, (blockVerifySw k m c true txs).2 = .ok cs → ∀ x ∈ cs, x.cycles = 0 := by
+  unfold blockVerifySw
+  cases hr : txResultsSw k m c true txs with
+  | error e => simp
+  | ok rs =>
+    have hz := txResultsSw_skip_zero txs rs hr
+    have hsum : (rs.map (·.2.cycles)).sum = 0 := by
+      apply sum_zero_of_all_zero
+      intro x hx
+      simp only [List.mem_map] at hx
+      obtain ⟨r, hr', rfl⟩ := hx
+      exact hz r hr'
+    simp only [hsum]
+    have : ¬ (0 > m) := by omega
+    simp only [this, if_false]
+    refine ⟨by simp, ?_⟩
+    intro cs hcs x hx
+    cases hcs
+    simp only [List.mem_map] at hx
+    obtain ⟨r, hr', rfl⟩ := hx
+    exact hz r hr'
+
+/-- **Every answer of every history equals the cache-free node's**, those of assume-valid blocks
+included (6d79679). -/
+theorem node_run_sw_all_eq_cold {k : Content} {m : Nat} {since : Nat → Nat} {s : NodeS} (hs : Sound k m s.cache)
+    (ops : List NOpS) : nrunSAll k m since s ops = nrunSAllCold k m since s.ctx ops := by
+  induction ops generalizing s with
+  | nil => rfl
+  | cons op ops ih =>
+    have hs' := nstepS_sound (since := since) hs op
+    have hc := nstepS_ctx (k := k) (m := m) (since := since) s op
+    cases op with
+    | reorg ctx => simp only [nrunSAll, nrunSAllCold]; rw [ih hs']; simp [nstepS]
+    | block skip ws =>
+      cases skip with
+      | true =>
+        simp only [nrunSAll, nrunSAllCold]; rw [ih hs']
+        simp only [nstepS, skip_block_verdict_eq_uncached hs]
+      | false =>
+        simp only [nrunSAll, nrunSAllCold]; rw [ih hs']
+        simp only [nstepS, blockVerifySw_false, block_verdict_eq_uncached hs]
+    | submit w =>
+      simp only [nrunSAll, nrunSAllCold]; rw [ih hs']
+      simp only [nstepS, cached_verdict_eq_uncached hs]
+    | probe w =>
+      simp only [nrunSAll, nrunSAllCold]; rw [ih hs']
+      simp only [nstepS, cached_verdict_eq_uncached hs]
+    | evict w => simp only [nrunSAll, nrunSAllCold]; rw [ih hs']; simp [nstepS]
+
+/-- non-vacuity: 3 is fully verified (cached, 300 cycles), then committed by an assume-valid block:
+zero cycles recorded although the node holds the entry -/
+example : nrunSAll exK 1000 (fun _ => 0) ⟨5, []⟩ [.block false [3], .block true [3], .block true [9, 8], .probe 3]
+    = [.blk (.ok [⟨300, 3⟩]), .blk (.ok [⟨0, 3⟩]), .blk (.ok [⟨0, 9⟩, ⟨0, 8⟩]), .tx (.ok ⟨300, 3⟩)] := by decide
 
 /-- a node without a cache never refuses an assume-valid block for its cycle sum -/
 theorem skip_cold_results_zero_cycles {k : Content} {m : Nat} (txs : List (Nat × Bool)) (rs : List (Nat × Completed))
@@ -955,13 +1102,6 @@ example : (blockVerify exK 1700 [(9, ⟨900, 9⟩)] [(9, true), (8, true)]).2 = 
     (blockVerify exK 1699 [(9, ⟨900, 9⟩)] [(9, true), (8, true)]).2 = .error .cycles := by decide
 
 /-! ## round 6: declared cycles (`submit_remote_tx`) -/
-
-theorem full_ok_shape {k : Content} {m : Nat} {w : Nat} {e : Completed} (h : full k m true w = .ok e) :
-    ∃ cyc f, k.capacityOk w = true ∧ k.script w = some cyc ∧ cyc ≤ m ∧ k.fee w = some f ∧ e = ⟨cyc, f⟩ := by
-  unfold full at h
-  cases hc : k.capacityOk w <;> cases hsx : k.script w <;> cases hfx : k.fee w <;> simp_all
-  all_goals (split at h <;> simp_all)
-  all_goals omega
 
 theorem cached_hit {k : Content} {d : Nat} {c : VCache} {w : Nat} {e : Completed} (hp : c.peek w = some e) (tr : Bool) :
     cached k d c tr w = if !tr then .error .timeRelative else .ok e := by
